@@ -164,6 +164,11 @@ def run_c16(ctx: Ctx) -> None:
                      "world_kwargs": {"focus": "ties"}, "mix": "builtin", "every": 1 if k % 2 == 0 else 2, "later": 8})
         if k % 3 == 1:
             jobs[-1]["dispatcher"] = {"charging_search_type": "shortest_time_to_charge"}
+    for k in range(ctx.pick(6, 40)):
+        # what-if worlds: where the charging manager sends a vehicle depends on the charge of those already plugged in
+        jobs.append({"id": f"savedw{base + k}", "label": "saved", "mode": "saved", "src": "gen", "seed": 63000 + base + k, "steps": 18,
+                     "world_kwargs": {"focus": "whatif"}, "mix": "builtin", "every": 1, "later": 8,
+                     "dispatcher": {"charging_search_type": "shortest_time_to_charge" if k % 3 else "nearest_shortest_queue"}})
     jobs.append({"id": "denver_demo", "label": "saved", "mode": "saved", "src": "shipped", "scenario": str(SCEN_DENVER / "denver_demo.yaml"),
                  "steps": ctx.pick(60, 400), "every": 10, "later": 15})
     groups = [("0", jobs[i::6]) for i in range(6) if jobs[i::6]]
